@@ -83,9 +83,10 @@ class Stmt:
     """One log statement in canonical form. `fill` maps gap-site name -> filler text (missing = default)."""
 
     def __init__(self, macro=("log", "info"), qualified=False, target=None, kvs=(), msg="plain", trailing="",
-                 fill=None, close=")", bang_gap=""):
+                 fill=None, close=")", bang_gap="", paren_gap=""):
         self.macro, self.qualified, self.target = macro, qualified, target
         self.bang_gap = bang_gap      # layout between the macro name and `!` (rustc accepts blanks and comments there)
+        self.paren_gap = paren_gap    # ... and between `!` and `(` (a statement split after the bang)
         self.kvs = [k if isinstance(k, KV) else kv(k) for k in kvs]
         self.msg, self.trailing, self.fill, self.close = msg, trailing, fill or {}, close
 
@@ -113,7 +114,7 @@ class Stmt:
             out.append(s)
             pos[0] += len(s.encode())
         name = (self.macro[0] + "::" if self.qualified else "") + self.macro[1]
-        emit(name + self.bang_gap + "!(")
+        emit(name + self.bang_gap + "!" + self.paren_gap + "(")
         gap_lo = pos[0]
         emit(site("after_open", ""), True)
         if self.target is not None:
